@@ -324,7 +324,7 @@ pub fn check_fault(c: &FaultCase, obs: &mut Obs) -> Verdict {
 }
 
 pub fn c15_cli_faults(ctx: &Ctx) -> bool {
-    ctx.run_prop("cli_fault_sequences", RULE_FAULTS, ctx.cases(120, 1600), strat_fault, check_fault)
+    ctx.run_prop("cli_fault_sequences", RULE_FAULTS, ctx.cases(30, 1600), strat_fault, check_fault)
 }
 
 pub fn replay(name: &str, case: &Value) -> Option<Verdict> {
@@ -484,5 +484,5 @@ fn strat_c08_cli(t: Tier) -> BoxedStrategy<crate::props::c08::Case> {
 }
 
 pub fn c08_cli(ctx: &Ctx) -> bool {
-    ctx.run_prop("cli_fx_folder", RULE_C08_CLI, ctx.cases(40, 600), strat_c08_cli, check_c08_cli)
+    ctx.run_prop("cli_fx_folder", RULE_C08_CLI, ctx.cases(10, 600), strat_c08_cli, check_c08_cli)
 }
